@@ -49,6 +49,11 @@ func (x *Exec) heapGet(st *State, key string, sort Sort) *Term {
 	}
 	st.Heap[key] = t
 	x.compSorts[key] = sort
+	if x.epoch == 0 {
+		x.curAlloc = x.C.Const("alloc0", SInt)
+	} else {
+		x.curAlloc = st.Alloc
+	}
 	x.rangeAxiom(key, t)
 	return t
 }
@@ -77,18 +82,26 @@ func (x *Exec) rangeAxiom(key string, t *Term) {
 	switch l.Role {
 	case "len", "cap", "off":
 		lo, hi = c.Int(0), c.Add(c.Pow2(47), c.Int(1))
-	case "arr", "tag", "val":
+	case "arr":
+		lo, hi = c.Int(0), c.Add(x.curAlloc, c.Int(1))
+	case "tag", "val":
 		return
 	default:
-		b, isB := types.Unalias(l.Type).Underlying().(*types.Basic)
-		if !isB || b.Info()&types.IsInteger == 0 && b.Info()&types.IsFloat == 0 {
-			return
+		switch types.Unalias(l.Type).Underlying().(type) {
+		case *types.Pointer, *types.Map, *types.Chan:
+			lo, hi = c.Int(0), c.Add(x.curAlloc, c.Int(1))
 		}
-		l0, h0, ok := intRange(b)
-		if !ok {
-			return
+		if lo == nil {
+			b, isB := types.Unalias(l.Type).Underlying().(*types.Basic)
+			if !isB || b.Info()&types.IsInteger == 0 && b.Info()&types.IsFloat == 0 {
+				return
+			}
+			l0, h0, ok := intRange(b)
+			if !ok {
+				return
+			}
+			lo, hi = c.BigInt(l0), c.BigInt(h0)
 		}
-		lo, hi = c.BigInt(l0), c.BigInt(h0)
 	}
 	p := c.NewBound("p", SInt)
 	if strings.HasPrefix(key, "A!") || strings.HasPrefix(key, "M!") && !strings.HasSuffix(key, ".len") {
@@ -461,4 +474,20 @@ func (x *Exec) symbolic(base string, t types.Type) Val {
 		ts[i] = x.C.Fresh(base+l.Suffix, l.Sort)
 	}
 	return x.Sh.Unflatten(t, ts)
+}
+
+// slot(off, j) = off + j, kept behind an uninterpreted function so that
+// quantifier triggers of the form A[slot(off, j)] bind j to whole index terms
+// (matching modulo arithmetic is not available in E-matching).
+func (x *Exec) slot(off, idx *Term) *Term {
+	c := x.C
+	f := c.Fun("slot", []Sort{SInt, SInt}, SInt)
+	if !x.slotAxiom {
+		x.slotAxiom = true
+		o := c.NewBound("o", SInt)
+		j := c.NewBound("j", SInt)
+		app := c.Apply(f, o, j)
+		x.assumeGlobal(c.Forall([]*Term{o, j}, c.Eq(app, c.Add(o, j)), []*Term{app}))
+	}
+	return c.Apply(f, off, idx)
 }
